@@ -98,10 +98,19 @@ def violates(src, fp):
     return fp.startswith("process_code-raises") and fp.split(":")[1] in err
   from pytype.pyc import opcodes  # pylint: disable=import-outside-toplevel
   for ob in obs:
-    for v in c16_impl.oracle(ob.ops, ob.blocks, ob.order, opcodes):
+    for v in all_clauses(ob, opcodes):
       if fingerprint(v) == fp:
         return True
   return False
+
+
+def all_clauses(ob, opcodes):
+  vs = c16_impl.oracle(ob.ops, ob.blocks, ob.order, opcodes)
+  try:
+    vs += c16_impl.exception_table_oracle(ob.host_code, ob.items, ob.ops, ob.blocks, ob.order, opcodes, ob.ops_line)
+  except Exception as e:  # pylint: disable=broad-except
+    vs.append(("exception-table-oracle-crashed", type(e).__name__))
+  return vs
 
 
 def shrink_source(src, firstlineno, fp, budget_s=20.0):
@@ -407,6 +416,56 @@ def synth_table(r, minor, opcodes):
   return table
 
 
+def synth_exc_case(r, opcodes):
+  """A random offset table with a random exception table, run through the real _add_setup_except."""
+  import pycnite.types  # pylint: disable=import-outside-toplevel
+  n = r.randint(2, 12)
+  offs = []
+  o = 0
+  for _ in range(n):
+    offs.append(o)
+    o += 2 * r.choice([1, 1, 1, 2, 5, 10])          # inline caches / EXTENDED_ARG leave gaps
+  table = {}
+  for off in offs:
+    name = r.choice(["NOP", "POP_TOP", "LOAD_ATTR", "CALL", "STORE_FAST", "RETURN_VALUE", "JUMP_FORWARD", "PUSH_EXC_INFO",
+                     "END_ASYNC_FOR", "CLEANUP_THROW", "SWAP", "RERAISE"])
+    cls = getattr(opcodes, name)
+    line = r.choice([None, 1, 1, 2, 3, 4, 5])
+    if cls.has_argument():
+      av = r.choice(offs)
+      op = cls(0, line, line, 0, 0, av // 2, av)
+    else:
+      op = cls(0, line, line, 0, 0)
+    table[off] = op
+  entries = []
+  pos = 0
+  for _ in range(r.randint(1, 5)):
+    # the last instruction is never protected: the unmodelled jump-marking half of _add_setup_except needs an
+    # integral max(offset_to_op)
+    if pos >= len(offs) - 1:
+      break
+    a = r.randrange(pos, len(offs) - 1)
+    b = r.randrange(a, len(offs) - 1)
+    start = offs[a]
+    # pycnite's inclusive end: (exclusive end) - 2; the exclusive end is the start of the following instruction
+    excl = offs[b + 1] if b + 1 < len(offs) else o
+    end = excl - 2 if r.random() < 0.9 else r.choice(offs[:-1])
+    target = r.choice(offs) if r.random() < 0.95 else o + 4
+    if r.random() < 0.05:
+      start += 1
+    entries.append(pycnite.types.ExceptionTableEntry(start, end, target, r.randint(0, 3), r.random() < 0.3))
+    pos = b + 1 if r.random() < 0.85 else a          # mostly disjoint, sometimes overlapping
+  before = c16_impl.abstract_xitems(sorted(table.items()))
+  ent = ["%d %d %d %d" % (e.start, e.end, e.target, 1 if e.lasti else 0) for e in entries]
+  inp = "X %d %d %s %s" % (len(ent), len(before), " ".join(ent), " ".join(b.replace(",", " ") for b in before))
+  hooks = c16_impl.install_hooks()
+  try:
+    hooks["orig_ase"](table, pycnite.types.ExceptionTable(entries))
+  except Exception as e:  # pylint: disable=broad-except
+    return inp, None, type(e).__name__
+  return inp, ";".join(c16_impl.abstract_xitems(sorted(table.items()))), None
+
+
 def run_real_table(table, minor, opcodes):
   items_line = c16_impl.abstract_items(sorted(table.items()))
   n = len(table)
@@ -483,6 +542,7 @@ def run(res):
   res.extra["generated_files"] = ["coq/Generated/C16_OpcodeFlags.v"]
   mark("translate")
   c16_impl.set_class_ids(table["ids"])
+  c16_impl.IGNORED_HANDLER_OPS = tuple(table["ignored_exception_targets"])
   # ---- 2. Coq --------------------------------------------------------------------------------------
   coq_ok = common.coq_obligations(res, "C16")
   mark("coq")
@@ -519,6 +579,10 @@ def run(res):
   n_big = 60 if thorough else 6
   for i in range(n_big):
     sources.append(("big%d" % i, c16_gen.big_program(common.rng(res.seed, "c16big", i), big=(i % 4 != 3)), None))
+  # adjacent / nested exception ranges
+  n_adj = 400 if thorough else 40
+  for i in range(n_adj):
+    sources.append(("adj%d" % i, c16_gen.adjacent_ranges_program(common.rng(res.seed, "c16adj", i)), None))
   files = stdlib_files()
   if thorough:
     chosen = files
@@ -551,10 +615,11 @@ def run(res):
     for it in batch:
       lines.append("O 1 %d %s" % (it["n_ops"], it["ops_line"]))
       lines.append("M 12 %d %s" % (len(it["items_line"].split()) // 4, it["items_line"]))
+      lines.append(it["xleg"][0] if it["xleg"] else "X 0 0")
     out = model.run(lines)
     t_model += time.time() - t0
     for k, it in enumerate(batch):
-      mo, mm = out[2 * k], out[2 * k + 1]
+      mo, mm, mx = out[3 * k], out[3 * k + 1], out[3 * k + 2]
       wf, an, pl, err, md = parse_model(mo)
       stats["plain" if pl else "send/async-surgery"] += 1
       if not pl:
@@ -575,6 +640,12 @@ def run(res):
       diffs = compare_object(it["real"], mo, it["ops_line"])
       if mm != it["real_ops_line"]:
         diffs.append("opcode list: model %s / real %s" % (mm[:300], it["real_ops_line"][:300]))
+      if it["xleg"]:
+        stats["objects_with_exception_table"] += 1
+        if mx != it["xleg"][1]:
+          k0 = next((i for i, (a, b) in enumerate(zip(mx.split(";"), it["xleg"][1].split(";"))) if a != b), -1)
+          diffs.append("_add_setup_except: model and real offset tables differ at item %d: model %s / real %s" % (
+              k0, ";".join(mx.split(";")[max(k0 - 1, 0):k0 + 3]), ";".join(it["xleg"][1].split(";")[max(k0 - 1, 0):k0 + 3])))
       if diffs:
         mism.append((it["where"], diffs))
         if len(mism) <= 3:
@@ -627,14 +698,23 @@ def run(res):
       b, e, o = c16_impl.real_result(ob.blocks, ob.order, ob.ops, hooks["cfg_utils"])
       real = (b, e, o, c16_impl.real_preds(ob.blocks, hooks["cfg_utils"]), c16_impl.final_targets(ob.ops))
       has_dup = False
-      for v in c16_impl.oracle(ob.ops, ob.blocks, ob.order, opcodes):
+      vs = c16_impl.oracle(ob.ops, ob.blocks, ob.order, opcodes)
+      try:
+        vs += c16_impl.exception_table_oracle(ob.host_code, ob.items, ob.ops, ob.blocks, ob.order, opcodes, ob.ops_line)
+      except Exception as e:  # pylint: disable=broad-except
+        vs.append(("exception-table-oracle-crashed", type(e).__name__))
+      for v in vs:
+        if v[0].startswith("note:") and fingerprint(v) not in res.known:
+          # candidate finding, only reported once the integrator lists its fingerprint
+          stats[fingerprint(v)] += 1
+          continue
         fp = fingerprint(v)
         has_dup = has_dup or v[0] == "instruction-in-several-blocks"
         stats["oracle:" + fp] += 1
         if fp not in viol_seen:
           viol_seen[fp] = (label, path, src, (ob.qualname, ob.firstlineno), v)
       batch.append({"where": where, "n_ops": ob.n_ops, "ops_line": ob.ops_line, "items_line": ob.items_line,
-                    "real": real, "real_ops_line": ob.real_ops_line, "dup": has_dup})
+                    "real": real, "real_ops_line": ob.real_ops_line, "dup": has_dup, "xleg": ob.xleg})
     if len(batch) >= 4000:
       flush(batch)
   flush(batch)
@@ -658,8 +738,21 @@ def run(res):
     items_line, n, real_line, exc = run_real_table(tb, minor, opcodes)
     tabs.append(("M %d %d %s" % (minor, n, items_line), real_line, exc))
     syn_stats["table-raises:" + exc if exc else "table-returns"] += 1
+  n_exc = 5000 if thorough else 1000
+  excs = [synth_exc_case(r, opcodes) for _ in range(n_exc)]
+  for _, real_line, exc in excs:
+    syn_stats["exc-table-raises:" + exc if exc else "exc-table-returns"] += 1
   n_syn_mism = 0
   if model is not None:
+    out_x = model.run([x[0] for x in excs])
+    for (inp, real_line, exc), mo in zip(excs, out_x):
+      ok = (mo.startswith("E") and exc is not None) or (exc is None and mo == real_line)
+      res.count(("exc", inp) if exc is None else None)
+      if not ok:
+        n_syn_mism += 1
+        if n_syn_mism <= 3:
+          res.obligation("correspondence:synthetic-exception-table", False,
+                         "%s :: model %s / real %s" % (inp[:500], mo[:300], (exc or real_line)[:300]))
     out = model.run([s[0] for s in syn] + [t[0] for t in tabs])
     for (inp, real, exc, line, spec, minor), mo in zip(syn, out):
       wf, _, _, _, _ = parse_model(mo)
@@ -687,7 +780,7 @@ def run(res):
     res.obligation("correspondence:model-vs-process_code", not mism,
                    "%d of %d code objects disagree" % (len(mism), n_objects))
     res.obligation("correspondence:model-vs-synthetic", n_syn_mism == 0,
-                   "%d of %d synthetic cases disagree" % (n_syn_mism, len(syn) + len(tabs)))
+                   "%d of %d synthetic cases disagree" % (n_syn_mism, len(syn) + len(tabs) + len(excs)))
     res.obligation("monitor:wf_ops-on-every-real-opcode-list", n_wf_bad == 0, "%d lists are not wf_ops" % n_wf_bad)
     res.obligation("monitor:anext_ok-on-SEND-free-lists", n_anext_bad == 0, "%d lists" % n_anext_bad)
   res.obligation("coverage:enough-code-objects", n_objects >= (50000 if thorough else 1500),
@@ -736,6 +829,7 @@ def replay(res, path):
   common.bootstrap_pytype()
   table = c16_flags.translate()[1]
   c16_impl.set_class_ids(table["ids"])
+  c16_impl.IGNORED_HANDLER_OPS = tuple(table["ignored_exception_targets"])
   from pytype.pyc import opcodes  # pylint: disable=import-outside-toplevel
   warnings.simplefilter("ignore")
   d = json.load(open(path))["replay"]
@@ -748,7 +842,7 @@ def replay(res, path):
     return 1 if err.startswith("process_code raised") and fp.startswith("process_code-raises") else 0
   still = 0
   for ob in obs:
-    vs = c16_impl.oracle(ob.ops, ob.blocks, ob.order, opcodes)
+    vs = all_clauses(ob, opcodes)
     print("code object %s@%d: %d ops, blocks %s, order %s" % (
         ob.qualname, ob.firstlineno, ob.n_ops, [[b.id, [o.index for o in b.code]] for b in ob.blocks][:40],
         [b.id for b in ob.order][:60]))
